@@ -104,20 +104,21 @@ Section Refine.
   Notation simple_term := (simple_term is_space data).
   Notation settled := (settled is_space data).
   Notation ltoks := (ltoks is_space is_letter is_number to_lower case_sensitive ftype data).
-  Notation bsub := (bsub is_space is_letter is_number to_lower case_sensitive ftype data).
-  Notation bexpr := (bexpr is_space is_letter is_number to_lower case_sensitive ftype data).
-  Notation bloop := (bloop is_space is_letter is_number to_lower case_sensitive ftype data).
+  (* the parser WITHOUT nesting limit and with an unbounded stack (the `_v0` semantics) *)
+  Notation bsub := (bsub is_space is_letter is_number to_lower case_sensitive ftype None None data).
+  Notation bexpr := (bexpr is_space is_letter is_number to_lower case_sensitive ftype None None data).
+  Notation bloop := (bloop is_space is_letter is_number to_lower case_sensitive ftype None None data).
   Notation field_operand :=
     (field_operand is_space is_letter is_number to_lower case_sensitive ftype data).
 
   Notation err_unexpected := (Legacy.err_unexpected is_space data).
 
-  Lemma bsub_S : forall f depth pos lv, bsub (S f) depth pos lv =
+  Lemma bsub_S : forall f depth pos lv lvl, bsub (S f) depth pos lv lvl =
         if eof pos then RErr else
         do c <- cur pos;
         if N.eqb c 40 then
           do p1 <- skip_sp (S pos);
-          do st <- bexpr f (S depth) p1 lv;
+          do st <- bexpr f (S depth) p1 lv (S lvl);
           let '((e, lv2), p2) := st in
           if eof p2 then RErr else
           do c2 <- cur p2;
@@ -127,7 +128,7 @@ Section Refine.
           do st <- simple_term pos;
           let '(name, p1) := st in
           if eq_fold_ascii name kw_not_r then
-            do st2 <- bsub f depth p1 lv;
+            do st2 <- bsub f depth p1 lv (S lvl);
             let '((ch, lv2), p2) := st2 in
             ROk ((NotN ch, lv2), p2)
           else
@@ -137,24 +138,24 @@ Section Refine.
             ROk ((e, lv2), p2).
   Proof. reflexivity. Qed.
 
-  Lemma bexpr_S : forall f depth pos lv, bexpr (S f) depth pos lv =
-        do st <- bsub f depth pos lv;
+  Lemma bexpr_S : forall f depth pos lv lvl, bexpr (S f) depth pos lv lvl =
+        do st <- bsub f depth pos lv lvl;
         let '((high, lv2), p) := st in
-        bloop f depth None high p lv2.
+        bloop f depth None high p lv2 lvl.
   Proof. reflexivity. Qed.
 
-  Lemma bloop_S : forall f depth low high pos lv, bloop (S f) depth low high pos lv =
+  Lemma bloop_S : forall f depth low high pos lv lvl, bloop (S f) depth low high pos lv lvl =
         do st <- simple_term pos;
         let '(op, p1) := st in
         let lop := map to_lower op in
         if runes_eqb lop kw_and_r then
-          do st2 <- bsub f depth p1 lv;
+          do st2 <- bsub f depth p1 lv lvl;
           let '((rgt, lv2), p2) := st2 in
-          bloop f depth low (AndN high rgt) p2 lv2
+          bloop f depth low (AndN high rgt) p2 lv2 lvl
         else if runes_eqb lop kw_or_r then
-          do st2 <- bsub f depth p1 lv;
+          do st2 <- bsub f depth p1 lv lvl;
           let '((rgt, lv2), p2) := st2 in
-          bloop f depth (Some (join_or low high)) rgt p2 lv2
+          bloop f depth (Some (join_or low high)) rgt p2 lv2 lvl
         else
           match op with
           | [] =>
@@ -223,21 +224,21 @@ Section Refine.
     end.
 
   Lemma ref_all : forall f,
-    (forall d pos lv F ts lvf, pos <= L -> settled pos ->
+    (forall d pos lv lvl F ts lvf, pos <= L -> settled pos ->
        ltoks F d true pos lv = ROk (ts, lvf) ->
-       ref_rel d lvf (bsub f d pos lv) (SubR d ts) (fun _ => True)) /\
-    (forall d pos lv F ts lvf, pos <= L -> settled pos ->
+       ref_rel d lvf (bsub f d pos lv lvl) (SubR d ts) (fun _ => True)) /\
+    (forall d pos lv lvl F ts lvf, pos <= L -> settled pos ->
        ltoks F d true pos lv = ROk (ts, lvf) ->
-       ref_rel d lvf (bexpr f d pos lv) (FilR d ts) (at_end d)) /\
-    (forall d low high pos lv F ts lvf, pos <= L -> settled pos ->
+       ref_rel d lvf (bexpr f d pos lv lvl) (FilR d ts) (at_end d)) /\
+    (forall d low high pos lv lvl F ts lvf, pos <= L -> settled pos ->
        ltoks F d false pos lv = ROk (ts, lvf) ->
-       ref_rel d lvf (bloop f d low high pos lv) (LoopR d low high ts) (at_end d)).
+       ref_rel d lvf (bloop f d low high pos lv lvl) (LoopR d low high ts) (at_end d)).
   Proof.
     induction f as [|f [IHs [IHe IHl]]].
     { repeat split; intros; exact I. }
     split; [| split].
     - (* parseSubexpr *)
-      intros d pos lv F ts lvf Hle Hs H.
+      intros d pos lv lvl F ts lvf Hle Hs H.
       destruct F as [|F0]; [discriminate|]. cbn [Legacy.ltoks] in H. rewrite bsub_S. revert H.
       destruct (eof pos) eqn:E.
       { intros H. inversion H; subst. apply SubR_nil. }
@@ -249,8 +250,8 @@ Section Refine.
         destruct Hsk as [Hp1 [Hs1 _]].
         intros H. apply rbind_ok in H as [[ts' lvf'] [H1 H2]]. simpl in H2. inversion H2; subst.
         assert (Hp1' : p1 <= L) by lia.
-        specialize (IHe (S d) p1 lv F0 ts' lvf Hp1' Hs1 H1).
-        destruct (bexpr f (S d) p1 lv) as [[[e lv2] p2]| | |]; cbn [rbind]; simpl in IHe;
+        specialize (IHe (S d) p1 lv (S lvl) F0 ts' lvf Hp1' Hs1 H1).
+        destruct (bexpr f (S d) p1 lv (S lvl)) as [[[e lv2] p2]| | |]; cbn [rbind]; simpl in IHe;
           [| apply SubR_lp_err; exact IHe | exact I | exact I].
         destruct IHe as [F' [ts2 [Ht [Hrel [Hp2 [Hs2 Hend]]]]]].
         destruct F' as [|F1]; [discriminate|]. cbn [Legacy.ltoks] in Ht.
@@ -279,8 +280,8 @@ Section Refine.
       rewrite Hst. cbn [rbind]. destruct (eq_fold_ascii name kw_not_r) eqn:En.
       { intros H. apply rbind_ok in H as [[ts' lvf'] [H1 H2]]. simpl in H2. inversion H2; subst.
         assert (Hp1' : p1 <= L) by lia.
-        specialize (IHs d p1 lv F0 ts' lvf Hp1' Hs1 H1).
-        destruct (bsub f d p1 lv) as [[[ch lv2] p2]| | |]; cbn [rbind]; simpl in IHs;
+        specialize (IHs d p1 lv (S lvl) F0 ts' lvf Hp1' Hs1 H1).
+        destruct (bsub f d p1 lv (S lvl)) as [[[ch lv2] p2]| | |]; cbn [rbind]; simpl in IHs;
           [| apply SubR_not_err; exact IHs | exact I | exact I].
         destruct IHs as [F' [ts2 [Ht [Hrel [Hp2 [Hs2 _]]]]]].
         simpl. exists F', ts2. repeat split; auto. apply SubR_not_ok. exact Hrel. }
@@ -293,42 +294,42 @@ Section Refine.
       intros H. apply rbind_ok in H as [[ts2 lvf2] [H1 H2]]. simpl in H2. inversion H2; subst.
       simpl. exists F0, ts2. repeat split; auto; [| lia]. apply SubR_leaf.
     - (* parseExpr *)
-      intros d pos lv F ts lvf Hle Hs H. rewrite bexpr_S.
-      specialize (IHs d pos lv F ts lvf Hle Hs H).
-      destruct (bsub f d pos lv) as [[[high lv2] p]| | |]; cbn [rbind]; simpl in IHs;
+      intros d pos lv lvl F ts lvf Hle Hs H. rewrite bexpr_S.
+      specialize (IHs d pos lv lvl F ts lvf Hle Hs H).
+      destruct (bsub f d pos lv lvl) as [[[high lv2] p]| | |]; cbn [rbind]; simpl in IHs;
         [| apply FilR_err; exact IHs | exact I | exact I].
       destruct IHs as [F' [ts2 [Ht [Hrel [Hp [Hs2 _]]]]]].
-      specialize (IHl d None high p lv2 F' ts2 lvf Hp Hs2 Ht).
-      destruct (bloop f d None high p lv2) as [[[e lv3] p3]| | |]; simpl in *; auto.
+      specialize (IHl d None high p lv2 lvl F' ts2 lvf Hp Hs2 Ht).
+      destruct (bloop f d None high p lv2 lvl) as [[[e lv3] p3]| | |]; simpl in *; auto.
       + destruct IHl as [F'' [ts3 [Ht3 [Hrel3 Hrest]]]]. exists F'', ts3. repeat split; try tauto.
         eapply FilR_ok; eassumption.
       + eapply FilR_ok; eassumption.
     - (* the loop of parseExpr *)
-      intros d low high pos lv F ts lvf Hle Hs H0. pose proof H0 as H.
+      intros d low high pos lv lvl F ts lvf Hle Hs H0. pose proof H0 as H.
       destruct F as [|F0]; [discriminate|]. cbn [Legacy.ltoks] in H. rewrite bloop_S. revert H.
       destruct (simple_term_spec pos Hle) as [op [p1 [Hst [Hp1 [Hs1 [Hnil _]]]]]].
       rewrite Hst. cbn [rbind]. cbv zeta.
       destruct (runes_eqb (map to_lower op) kw_and_r) eqn:Ea.
       { intros H. apply rbind_ok in H as [[ts' lvf'] [H1 H2]]. simpl in H2. inversion H2; subst.
         assert (Hp1' : p1 <= L) by lia.
-        specialize (IHs d p1 lv F0 ts' lvf Hp1' Hs1 H1).
-        destruct (bsub f d p1 lv) as [[[rgt lv2] p2]| | |]; cbn [rbind]; simpl in IHs;
+        specialize (IHs d p1 lv lvl F0 ts' lvf Hp1' Hs1 H1).
+        destruct (bsub f d p1 lv lvl) as [[[rgt lv2] p2]| | |]; cbn [rbind]; simpl in IHs;
           [| apply LoopR_and_err; exact IHs | exact I | exact I].
         destruct IHs as [F' [ts2 [Ht [Hrel [Hp2 [Hs2 _]]]]]].
-        specialize (IHl d low (AndN high rgt) p2 lv2 F' ts2 lvf Hp2 Hs2 Ht).
-        destruct (bloop f d low (AndN high rgt) p2 lv2) as [[[e lv3] p3]| | |]; simpl in *; auto.
+        specialize (IHl d low (AndN high rgt) p2 lv2 lvl F' ts2 lvf Hp2 Hs2 Ht).
+        destruct (bloop f d low (AndN high rgt) p2 lv2 lvl) as [[[e lv3] p3]| | |]; simpl in *; auto.
         + destruct IHl as [F'' [ts3 [Ht3 [Hrel3 Hrest]]]]. exists F'', ts3. repeat split; try tauto.
           eapply LoopR_and; eassumption.
         + eapply LoopR_and; eassumption. }
       destruct (runes_eqb (map to_lower op) kw_or_r) eqn:Eo.
       { intros H. apply rbind_ok in H as [[ts' lvf'] [H1 H2]]. simpl in H2. inversion H2; subst.
         assert (Hp1' : p1 <= L) by lia.
-        specialize (IHs d p1 lv F0 ts' lvf Hp1' Hs1 H1).
-        destruct (bsub f d p1 lv) as [[[rgt lv2] p2]| | |]; cbn [rbind]; simpl in IHs;
+        specialize (IHs d p1 lv lvl F0 ts' lvf Hp1' Hs1 H1).
+        destruct (bsub f d p1 lv lvl) as [[[rgt lv2] p2]| | |]; cbn [rbind]; simpl in IHs;
           [| apply LoopR_or_err; exact IHs | exact I | exact I].
         destruct IHs as [F' [ts2 [Ht [Hrel [Hp2 [Hs2 _]]]]]].
-        specialize (IHl d (Some (join_or low high)) rgt p2 lv2 F' ts2 lvf Hp2 Hs2 Ht).
-        destruct (bloop f d (Some (join_or low high)) rgt p2 lv2) as [[[e lv3] p3]| | |];
+        specialize (IHl d (Some (join_or low high)) rgt p2 lv2 lvl F' ts2 lvf Hp2 Hs2 Ht).
+        destruct (bloop f d (Some (join_or low high)) rgt p2 lv2 lvl) as [[[e lv3] p3]| | |];
           simpl in *; auto.
         + destruct IHl as [F'' [ts3 [Ht3 [Hrel3 Hrest]]]]. exists F'', ts3. repeat split; try tauto.
           eapply LoopR_or; eassumption.
@@ -357,7 +358,7 @@ Lemma legacy_refines :
   forall (is_space is_letter is_number : N -> bool) (to_lower : N -> N) (case_sensitive : bool)
          (ftype : bytes -> N) (q : bytes) ts lv,
     legacy_lex is_space is_letter is_number to_lower case_sensitive ftype q = ROk (ts, lv) ->
-    legacy_parse is_space is_letter is_number to_lower case_sensitive ftype q
+    legacy_parse is_space is_letter is_number to_lower case_sensitive ftype None None q
     = match parse ts with Ok a => ROk (a, lv) | Err => RErr | OutOfFuel => RFuel end.
 Proof.
   intros is_space is_letter is_number to_lower cs ftype q ts lv H.
@@ -368,11 +369,11 @@ Proof.
   destruct (skip_sp is_space data 0) as [p0| | |]; cbn [rbind] in *; simpl in Hsk; try discriminate.
   destruct Hsk as [Hp0 [Hs0 _]]. assert (Hp0' : p0 <= length data) by lia.
   destruct (ref_all is_space is_letter is_number to_lower cs ftype data (pfuel data)) as [_ [He _]].
-  specialize (He 0 p0 [] (pfuel data) ts lv Hp0' Hs0 H).
-  destruct (parse_all is_space is_letter is_number to_lower cs ftype data (pfuel data)) as [_ [Ht _]].
+  specialize (He 0 p0 [] 0 (pfuel data) ts lv Hp0' Hs0 H).
+  destruct (parse_all is_space is_letter is_number to_lower cs ftype None None (stack_ok_none None) data (pfuel data)) as [_ [Ht _]].
   assert (Hfuel : 2 * (length data - p0) + 2 <= pfuel data) by (unfold pfuel; lia).
-  specialize (Ht 0 p0 [] Hp0' Hs0 Hfuel).
-  destruct (bexpr is_space is_letter is_number to_lower cs ftype data (pfuel data) 0 p0 [])
+  specialize (Ht 0 p0 [] 0 Hp0' Hs0 Hfuel (lvl_inv_0 None)).
+  destruct (bexpr is_space is_letter is_number to_lower cs ftype None None data (pfuel data) 0 p0 [] 0)
     as [[[e lv'] p]| | |]; cbn [rbind]; simpl in He, Ht; try contradiction.
   - destruct He as [F' [ts2 [Hl [Hrel [Hp [Hs Hend]]]]]].
     destruct Hend as [Heof | [_ Hd]]; [| lia].
@@ -388,7 +389,8 @@ Lemma legacy_raw_denotes :
   forall (is_space is_letter is_number : N -> bool) (to_lower : N -> N) (case_sensitive : bool)
          (ftype : bytes -> N) (q : bytes) e lv,
     legacy_lex is_space is_letter is_number to_lower case_sensitive ftype q = ROk (render_min e, lv) ->
-    exists t, legacy_parse is_space is_letter is_number to_lower case_sensitive ftype q = ROk (t, lv)
+    exists t, legacy_parse is_space is_letter is_number to_lower case_sensitive ftype None None q
+              = ROk (t, lv)
               /\ forall v, eval v t = den v e.
 Proof.
   intros is_space is_letter is_number to_lower cs ftype q e lv H.
